@@ -405,6 +405,45 @@ def _api_interleaved_readers(src, dest):
             treeoutput.export(t, f, boyd_split_numbering=True)
 
 
+def _api_two_gz_readers(src, dest):
+    """API history: a reader on ANOTHER compressed treebank (larger than an I/O buffer) has been started and is half-way
+    when the source is read; it is finished afterwards.  Both must deliver their own sentences."""
+    import io as _io
+    import gzip as _gzip
+    from trees import treeinput, treeoutput
+    big = src + '.other.export.gz'
+    other = [model.MT(5000 + i, model.mk_tokens(4, words=['other%dw%d' % (i, j) for j in range(4)]),
+                      ('VROOT', '--', (('NP', 'HD', (1, 2)), 3, 4))) for i in range(200)]
+    with _gzip.open(big, 'wb') as f:
+        f.write(codecs.encode_export(other).encode('utf-8'))
+    r_big = treeinput.export(big, 'utf-8', quiet=True)
+    got = [next(r_big)]
+    mine = list(treeinput.export(src, 'utf-8', quiet=True))
+    got.extend(r_big)
+    os.unlink(big)
+    words = [[x.data['word'] for x in sorted((l for l in _all_leaves(t)), key=lambda l: l.data['num'])] for t in got]
+    want = [[tk['word'] for tk in m.toks] for m in other]
+    if words != want:
+        k = next((i for i, (a, b) in enumerate(zip(words, want)) if a != b), min(len(words), len(want)))
+        raise RuntimeError('the reader of the other compressed treebank delivered %d sentences (expected %d); sentence %d reads %r, '
+                           'expected %r' % (len(words), len(want), k + 1, words[k] if k < len(words) else None,
+                                            want[k] if k < len(want) else None))
+    with _io.open(dest, 'w', encoding='utf-8') as f:
+        for t in mine:
+            treeoutput.export(t, f)
+
+
+def _all_leaves(t):
+    out, stack = [], [t]
+    while stack:
+        x = stack.pop()
+        if x.children:
+            stack.extend(x.children)
+        else:
+            out.append(x)
+    return out
+
+
 def _api_stagewise(src, dest):
     """API history: the treebank is processed stage by stage - every tree is analysed (gap degrees) and offered to
     the bracket writer (which refuses the discontinuous ones), then root_attach runs on all trees, then head
@@ -458,6 +497,7 @@ CONCAT_OPS = [
     ('export', ['grammar', '{src}', '{dest}', 'treebank'], 'lex', 'dest.lex'),
     ('export', ['treeanalysis', '{src}', 'GapDegree'], 'gapreport', None),
     ('export', ['treeanalysis', '{src}', 'SentenceCount'], 'count', None),
+    ('export-gzcat', _api_two_gz_readers, 'export', 'dest'),
 ]
 
 
@@ -665,7 +705,7 @@ def plan(tier, seed):
                 '(2) BFS over hidden states (mechanical snapshot of all module-level objects, function attributes, '
                 'defaults, closure cells and class attributes of trees.*): every operation applied in every reachable '
                 'hidden state; (3) op(A+B) = op(A) (+) op(B) for every ordered pair from a treebank pool x %d '
-                'operations (three of them API histories: read all then transform last-to-first; two interleaved readers; stage-wise processing with analysis and refused writes in between); (4) every operation under %d PYTHONHASHSEED values in real subprocesses; (5) binarization called twice with the same grammar and the same options dict object. '
+                'operations (four of them API histories: read all then transform last-to-first; two interleaved readers; a second reader on another compressed treebank half-way through; stage-wise processing with analysis and refused writes in between); (4) every operation under %d PYTHONHASHSEED values in real subprocesses; (5) binarization called twice with the same grammar and the same options dict object. '
                 'non-trivial = histories of length >= 2, concatenation pairs, determinism runs'
                 % (L, len(names), '' if tier == 'quick' else ' (length 3: all histories whose first two operations are among the 8 state-relevant ones)',
                    len(CONCAT_OPS), nseeds),
